@@ -18,6 +18,7 @@ NAMES = ['e1', 'e2']
 TARGETS = ['a', 'b', 'c', '*', 'inst']
 DYN_NAMES = [(), ('e1',), ('e2',), ('e1', 'e2')]
 DYN_CHANS = [None, 'a', 'b', '*', 'self']
+FALSY = [0, '']         # channels that are falsy values: still channels (third op argument >= 40 selects them)
 SHAPES = ['plain', 'catch', 'star', 'impl', 'subno', 'subov', 'bare', 'leaf3', 'implopt']
 
 
@@ -184,7 +185,7 @@ def _expect(w, root, event, channels):
     tag = event.args[0]
     w.expect[tag] = (must, may, getattr(root, 'idx', None))
     w.dispatched.append(tag)
-    key = (event.name, target if isinstance(target, str) else ('inst', target.idx))
+    key = (event.name, target if isinstance(target, (str, int)) else ('inst', target.idx))
     seen = w.seen_keys.setdefault(root.idx, {})
     if key in seen and seen[key] < w.ops_since:
         w.nontrivial = True
@@ -196,7 +197,7 @@ class C01(Prop):
     id = 'C01'
     rule = ('histories (<=40 ops) over a pool of <=7 components of 7 class shapes (explicit named / multi-name / catch-all / '
             'global / channel-override / instance-channel handlers, implicit Component methods, handlers inherited with and '
-            'without override) with instance channels from {a,b,*}: register, unregister (settled or left in flight), '
+            'without override) with instance channels from {a,b,*} (handler channel overrides and fire targets also the falsy values 0 and ''): register, unregister (settled or left in flight), '
             'addHandler, removeHandler, fire, flush, and a compound "recycle root" op; every probe is judged at dispatch time '
             'against the matcher derived from the statement; non-trivial = a probe dispatched by a root that had already '
             'dispatched the same (name, target) and saw a structural change since; distinct = spec hash')
@@ -213,7 +214,7 @@ class C01(Prop):
     def strategy(self, tier):
         op = st.tuples(st.sampled_from(['reg', 'reg', 'unreg', 'unreg', 'unreg_nosettle', 'addh', 'addh', 'rmh', 'probe', 'probe',
                                         'probe', 'fire', 'flush', 'recycle', 'recycle', 'detach_race', 'unreg_nosettle', 'in_batch', 'in_batch']),
-                       st.integers(0, 13), st.integers(0, 13), st.integers(0, 39)).map(list)
+                       st.integers(0, 13), st.integers(0, 13), st.one_of(st.integers(0, 39), st.integers(0, 55))).map(list)
         return st.fixed_dictionaries({
             'pool': st.lists(st.tuples(st.sampled_from(SHAPES), st.sampled_from(['a', 'b', '*'])).map(list), min_size=2, max_size=7),
             'ops': st.lists(op, min_size=1, max_size=40 if tier == 'quick' else 60),
@@ -252,7 +253,10 @@ class C01(Prop):
                     tagc[0] += 1
                     name = NAMES[name_i % 2]
                     t = TARGETS[tgt_i % len(TARGETS)]
-                    if t == 'inst':
+                    if tgt_i >= 40:
+                        t = FALSY[tgt_i % 2]
+                        w.classes.add('falsy-channel-addressed')
+                    elif t == 'inst':
                         t = w.pool[(tgt_i // len(TARGETS)) % n]
                         w.classes.add('instance-addressed')
                     src.fire(EV[name](tagc[0]), t)
@@ -262,6 +266,9 @@ class C01(Prop):
                 def do_addh(c, k):
                     names = DYN_NAMES[k % len(DYN_NAMES)]
                     chan = DYN_CHANS[(k // len(DYN_NAMES)) % len(DYN_CHANS)]
+                    if k >= 40:
+                        chan = FALSY[(k // len(DYN_NAMES)) % 2]
+                        w.classes.add('handler-on-falsy-channel')
                     dyn_counter[0] += 1
                     hid = 'dyn%d' % dyn_counter[0]
                     f = H(*names, channel=(c if chan == 'self' else chan))(rec(hid))
